@@ -88,11 +88,13 @@ def dateKey {α : Type} (cols : List String) (row : List (Cell α)) : String :=
     | _ => ""
   | none => ""
 
-/-- a stable insertion sort by date string (pandas uses an unstable quicksort: the theorems hold for
-every permutation that orders the keys; the harness compares equal-date runs as multisets) -/
+/-- a STABLE insertion sort by date string: `r` is put in front of the first row whose key is not smaller, so rows with
+equal keys keep their order (`C01.sortRows_stable`).  This is what `frame.sort_values('date')` does on the `str` dtype
+of the installed pandas (observed, not documented for ties); C01's theorems hold for every permutation that orders the
+keys, the order over ties is what C04's "verbatim in particle order" needs -/
 def insertRow {α : Type} (cols : List String) (r : List (Cell α)) : List (List (Cell α)) → List (List (Cell α))
   | [] => [r]
-  | x :: xs => if dateKey cols r < dateKey cols x then r :: x :: xs else x :: insertRow cols r xs
+  | x :: xs => if dateKey cols x < dateKey cols r then x :: insertRow cols r xs else r :: x :: xs
 
 def sortRows {α : Type} (cols : List String) (rows : List (List (Cell α))) : List (List (Cell α)) :=
   rows.foldr (fun r acc => insertRow cols r acc) []
